@@ -14,7 +14,8 @@ EXPLANATION = (
     "independent of the order in which errors arrive (whole-view frame); (3) complete_value never "
     "returns None for a non-null type on the synchronous path; handle_field_error's decision.")
 UNVERIFIED = [
-    "all schedule dependent statements: independence of completion order, gather_with_cancel, serial execution of mutation fields under awaitables",
+    "all schedule dependent statements: independence of completion order, gather_with_cancel, serial execution of mutation fields under awaitables "
+    "(BOUNDED stand-in only: props/C02_ref.search_async, seeded completion schedules against a reference executor)",
     "the asynchronous completion paths (complete_awaitable_value, async list items, async type resolution)",
 ]
 TRUSTED = []
@@ -51,6 +52,32 @@ for i in range(60):
         bad += 1
 assert bad == 0, bad
 '''
+
+
+def bounded_checks(tier, seed):
+    """Independence of the completion order is a statement about schedules, outside what a
+    per-activation contract can say (A3): BOUNDED stand-in - the requests of props/C02_ref.py executed
+    with a seeded subset of the fields resolving through coroutines that finish after 0-3 event-loop
+    turns; the response must equal the reference executor's, which knows nothing of time."""
+    import json
+    code = ("import json\nfrom props.C02_ref import search_async\n"
+            f"r = search_async(seed={int(seed)}, thorough={tier == 'thorough'!r})\n"
+            "print('BOUNDED ' + json.dumps(r, default=str))")
+    rc, outp = run_native(code, timeout=1500)
+    res, ok = None, False
+    for line in outp.splitlines():
+        if line.startswith("BOUNDED "):
+            res, ok = json.loads(line[8:]), True
+    if not ok:
+        raise RuntimeError(outp[-600:])
+    return [{"id": "C03/bounded/completion-order-vs-reference-executor",
+             "function": "execute (async resolvers; complete_awaitable_value, gather, async list items)",
+             "tool": "reference executor (props/C02_ref.py) vs execute under seeded completion schedules, native",
+             "bound": "the request corpus of props/C02_ref.py (ordered pairs + 200 seeded triples per parent, "
+                      + ("every 2nd" if tier == "thorough" else "every 7th") + " request), data variants 0, 1, 4, "
+                      + ("8" if tier == "thorough" else "3") + " seeded schedules per request: each field resolves synchronously "
+                      "or through a coroutine finishing after 0-3 event-loop turns; no @defer/@stream",
+             "failed": res is not None, "input": res, "output": outp[-1500:]}]
 
 
 def native_checks(tier, seed):
